@@ -56,6 +56,69 @@ func f2Pool() []altShape {
 	}
 }
 
+// f2DisjointPool: one shape per first-set situation, each over its own letters, so that most
+// tuples are pairwise disjoint and really are rewritten into a switch (in f2Pool most shapes
+// start with a or b and end up in the ordered part of the choice).
+func f2DisjointPool() []altShape {
+	rT := func() []ag.Rule { return []ag.Rule{{Name: "R", Body: ag.S(lit("t"), lit("u"))}} }
+	return []altShape{
+		{"a", func() *ag.Expr { return lit("a") }, nil},
+		{"[e-k]", func() *ag.Expr { return rng('e', 'k') }, nil},
+		{"b?c", func() *ag.Expr { return ag.S(ag.U(ag.Opt, lit("b")), lit("c")) }, nil},
+		{"&l m", func() *ag.Expr { return ag.S(ag.U(ag.And, lit("l")), lit("m")) }, nil},
+		{"[n-o]?p", func() *ag.Expr { return ag.S(ag.U(ag.Opt, rng('n', 'o')), lit("p")) }, nil},
+		{"q*d", func() *ag.Expr { return ag.S(ag.U(ag.Star, lit("q")), lit("d")) }, nil},
+		{"(rx/sy)", func() *ag.Expr { return ag.A(ag.S(lit("r"), lit("x")), ag.S(lit("s"), lit("y"))) }, nil},
+		{"R", func() *ag.Expr { return ag.N("R") }, rT},
+		// thorough
+		{"!l v", func() *ag.Expr { return ag.S(ag.U(ag.Not, lit("l")), lit("v")) }, nil},
+		{"<w>x", func() *ag.Expr { return ag.S(ag.U(ag.Cap, lit("w")), lit("x")) }, nil},
+		{"{}y", func() *ag.Expr { return ag.S(ag.Action(), lit("y")) }, nil},
+		{"R?z", func() *ag.Expr { return ag.S(ag.U(ag.Opt, ag.N("R")), lit("z")) }, rT},
+	}
+}
+
+// F2D: like F2 (plain context) over the disjoint pool.
+func F2D(m, poolN, maxLen int, variants []string) []*Case {
+	pool := f2DisjointPool()
+	if poolN < len(pool) {
+		pool = pool[:poolN]
+	}
+	var out []*Case
+	idx := 0
+	tuple := make([]int, m)
+	var rec func(i int)
+	rec = func(i int) {
+		if i == m {
+			var alts []*ag.Expr
+			needR := false
+			for _, k := range tuple {
+				alts = append(alts, pool[k].mk())
+				if pool[k].rules != nil {
+					needR = true
+				}
+			}
+			g := ag.G(fmt.Sprintf("F2D/%d", idx), ag.Rule{Name: "S", Body: ag.S(ag.A(alts...), ag.U(ag.Not, ag.D()))})
+			idx++
+			if needR {
+				g.Rules = append(g.Rules, ag.Rule{Name: "R", Body: ag.S(lit("t"), lit("u"))})
+			}
+			g.Number()
+			if !wellFormed(g) {
+				return
+			}
+			out = append(out, &Case{Family: "F2D", G: g, Sigma: sigmaOf(g, 9, '0'), MaxLen: maxLen, Variants: variants, Mode: spec.ModeBehaviour})
+			return
+		}
+		for k := range pool {
+			tuple[i] = k
+			rec(i + 1)
+		}
+	}
+	rec(0)
+	return out
+}
+
 // F2 enumerates S <- ctx(A1 / ... / Am) !. for all m-tuples over the first poolN shapes,
 // optionally with a trailing empty alternative, in the given contexts.
 // contexts: "plain", "star", "after", "peek", "outer"
@@ -606,7 +669,7 @@ func F13(maxLen int, variants []string, limit int) []*Case {
 					if !wellFormed(g) {
 						continue
 					}
-					out = append(out, &Case{Family: "F13", G: g, Sigma: strs('a', 'b', 'x', 'y'), MaxLen: maxLen, Variants: variants, Mode: spec.ModeBehaviour})
+					out = append(out, &Case{Family: "F13", G: g, Sigma: strs('a', 'b', 'x', 'y'), MaxLen: maxLen, Variants: variants, Mode: spec.ModeBehaviour, Entries: []string{"S", "R1", "B1", "R2", "B2", "P7", "P252"}})
 				}
 			}
 		}
